@@ -304,3 +304,58 @@ package database
 //@ func (*MySQLDB).QueryRow
 //@   trusted
 //@   modifies nothing
+
+// ---- mock store (C08, C04): the rows are shared by every request; they are read and written under MockDatabase.mu only, no
+// ---- operand can make an operation panic, and no operation hands out (or keeps) a live row: what crosses the lock is a copy
+//@ monitor MockDatabase.mu guards data invariant self.data != nil
+//@ func valuesEqual
+//@   strict
+//@   modifies nothing
+//@ func sameID
+//@   strict
+//@   modifies nothing
+//@ func copyRecord
+//@   strict
+//@   modifies nothing
+//@   ensures result != nil && fresh(result)
+//@ func (*MockDatabase).Table
+//@   strict
+//@   requires m != nil
+//@   ensures result != nil && fresh(result) && result.db == m && result.name == name
+//@ func (*MockTableHandler).All
+//@   strict
+//@   requires m != nil && m.db != nil
+//@   loop 1 invariant 0 <= rangeidx && forall(k, 0, rangeidx, typeis(result[k], map[string]interface{}) && fresh(result[k].(map[string]interface{}))) && len(result) == len(data) && fresh(base(result))
+//@   ensures forall(k, 0, len(result), typeis(result[k], map[string]interface{}) && fresh(result[k].(map[string]interface{})))
+//@ func (*MockTableHandler).Get
+//@   strict
+//@   requires m != nil && m.db != nil
+//@   ensures result == nil || (typeis(result, map[string]interface{}) && fresh(result.(map[string]interface{})))
+//@ func (*MockTableHandler).Create
+//@   strict
+//@   requires m != nil && m.db != nil
+// the row kept by the table is not the caller's map
+//@   atunlock len(m.db.data[m.name]) == atlock(len(m.db.data[m.name])) + 1 && fresh(m.db.data[m.name][len(m.db.data[m.name])-1])
+// (rows are never nil: they enter through Create only, as copies; not carried as an invariant, so the write into the row is
+// checked as an advisory obligation only)
+//@ func (*MockTableHandler).Update
+//@   requires m != nil && m.db != nil
+//@   ensures result == nil || fresh(result)
+//@ func (*MockTableHandler).Delete
+//@   strict
+//@   requires m != nil && m.db != nil
+//@ func (*MockTableHandler).Count
+//@   strict
+//@   requires m != nil && m.db != nil
+//@ func (*MockTableHandler).CountWhere
+//@   strict
+//@   requires m != nil && m.db != nil
+//@ func (*MockTableHandler).Filter
+//@   strict
+//@   requires m != nil && m.db != nil
+//@ func (*MockTableHandler).NextId
+//@   strict
+//@   requires m != nil && m.db != nil
+//@ func (*MockTableHandler).Length
+//@   strict
+//@   requires m != nil && m.db != nil
